@@ -89,6 +89,11 @@ def handwritten():
         ('label', 'a'), ('data', '.byte', [C(7)]), ('org', V('v1'), None), ('label', 'b'), ('data', '.2byte', [L('a'), L('b')]),
         ('org', C(3), 'GLOBAL'), ('label', 'c'), ('data', '.2byte', [L('c')])], consts=('v1',),
         origin=Sym('o0', 0, 0x90), global_zone=(Sym('gs', 0, 0x40), Sym('ge', 0x60, 0x3fff)), expect=('ok', 'rejected')))
+    # .align counts from address 0 wherever the zone starts
+    S.append(mk('hw:align-inside-a-zone', [
+        ('memzone', 'ZA'), ('instr', 'nop', None), ('align', C(16)), ('label', 'a'), ('data', '.byte', [C(1)]), ('align', V('p')),
+        ('label', 'b'), ('data', '.2byte', [L('a'), L('b')]), ('memzone', 'GLOBAL'), ('instr', 'ld16', L('b'))], consts=('p',), width=24,
+        zones={'ZA': (Sym('zas', 0x2000, 0x203f), 0x2fff)}))
     S.append(mk('hw:zones', [
         ('instr', 'nop', None), ('memzone', 'ZA'), ('label', 'za1'), ('data', '.byte', [C(1), C(2)]), ('memzone', 'GLOBAL'),
         ('label', 'g1'), ('instr', 'nop', None), ('memzone', 'ZA'), ('label', 'za2'), ('data', '.2byte', [L('za1'), L('g1')]),
